@@ -103,6 +103,13 @@ package piece
 //@   witness  [npieces] len(ps.pieces)
 //@   props    C01 C02 C09 C11
 
+// PByte: byte k after torrent offset off, as held by the piece that contains off.
+//@ spec PByte(ps *Pieces, off int64, k int) byte
+//@   body ps.pieces[int(off/int64(ps.pieceSize))].data[int(off%int64(ps.pieceSize))+k]
+// VerifiedAt: the piece containing off is complete and its bytes hash to the metainfo hash.
+//@ spec VerifiedAt(ps *Pieces, off int64) bool
+//@   body InR(ps, int(off/int64(ps.pieceSize))) && ps.pieces[int(off/int64(ps.pieceSize))].state == 1 && Verified(ps, int(off/int64(ps.pieceSize)))
+
 // ReadAt: a non-empty result consists of bytes of a piece that was complete --
 // hence verified (monitor invariant) -- while the read lock was held, taken at
 // the offset they occupy in the torrent.
